@@ -15,7 +15,8 @@ from yaql.language import utils as yutils
 RULE = ('random families of 1-6 overloads of one name (0-4 visible '
         'parameters, hidden parameters at any position, defaults, *args/'
         '**kwargs, keyword-only, lazy parameters, types from the lattice '
-        'object>A>B>C, A>D plus int/Integer/String/bool, nullable or not, '
+        'object>A>B>C, A>D plus int/Integer/String/bool and the union types '
+        '(B, D) and Number, nullable or not, '
         'function/method/extension kinds) over 1-4 layers with optional '
         'exclusivity; calls derived from one of the definitions and then '
         'perturbed (positional/keyword split, omitted and skipped defaults, '
@@ -195,15 +196,18 @@ REPLAY = {'call': check_call}
 # --------------------------------------------------------------------------
 # generators
 
-TYPES = ['obj', 'A', 'B', 'C', 'D', 'int', 'Integer', 'String', 'bool']
+TYPES = ['obj', 'A', 'B', 'C', 'D', 'int', 'Integer', 'String', 'bool',
+         'Number', 'BorD']
 GOOD = {
     'obj': [{'o': 'a'}, {'o': 'c'}, 1, 'x', True],
     'A': [{'o': 'a'}, {'o': 'b'}, {'o': 'c'}, {'o': 'd'}],
     'B': [{'o': 'b'}, {'o': 'c'}], 'C': [{'o': 'c'}], 'D': [{'o': 'd'}],
     'int': [0, 7, True], 'Integer': [0, 7], 'String': ['x', ''],
     'bool': [True, False],
+    'Number': [0, 7, 1.5], 'BorD': [{'o': 'b'}, {'o': 'c'}, {'o': 'd'}],
 }
-ANY = [{'o': 'a'}, {'o': 'b'}, {'o': 'c'}, {'o': 'd'}, 0, 7, 'x', True, None]
+ANY = [{'o': 'a'}, {'o': 'b'}, {'o': 'c'}, {'o': 'd'}, 0, 7, 'x', True, None,
+       1.5]
 PNAMES = ['p', 'q', 'r', 's', 'long_name', 'k']
 ALIASES = {'long_name': 'longName', 'p': 'pAlias', 'q': 'q_', 'k': 'key'}
 
